@@ -407,3 +407,13 @@ def run_case(case):
     finally:
         _action.threading = _t
         world.fresh()
+
+
+def sanity(summary, tier):
+    x = summary["extra"]
+    probs = []
+    if x.get("thr_schedules_with_1_preemption", 0) < 20:
+        probs.append("the preserve_context race was not explored")
+    if x.get("merges_parsed", 0) < 1000:
+        probs.append("too few merges parsed")
+    return probs
